@@ -12,5 +12,5 @@ vcheck.prepare_go_module()
 PY
 if [ -f lib/gen.py ]; then python3 lib/gen.py all; fi
 (cd coq && ./regen.sh && timeout 7000 make -j16 2>&1 | grep -v '^COQ' | tail -40)
-(cd goharness && for d in cmd/*/; do go build -tags verif -o ../.work/bin/$(basename $d) ./$d; done)
+(cd goharness && go build -modfile ../.work/gomod/repo/go.mod -tags verif ./... )
 echo setup done
